@@ -355,3 +355,13 @@ package dragonboat
 //@ noframe
 //@ nobounds
 //@ ensures n.config.IsWitness ==> result0 == nil && result1 != nil
+
+// ---------------------------------------------------------------- ReadIndex results reach their own batch (C06)
+// From the property: a reader is released only after the index recorded for ITS request has been
+// applied; each confirmed read context gets the index confirmed for that context
+//@ func (p *pendingReadIndex) addReady [C06]
+//@ noframe
+//@ nobounds
+//@ requires p.batches != nil
+//@ modifies held(p.mu), entries(p.batches)
+//@ loop 1 step v.SystemCtx in p.batches ==> p.batches[v.SystemCtx].index == v.Index
